@@ -1218,10 +1218,11 @@ class _BoolOpToIf(ast.NodeTransformer):
         return st
 
 
-# public module-level operator tables of the library that rules judge AS TABLES (abstract evaluation of every row: C02.tables, C12.arith /
-# compare / assign) and whose call sites are read as `TABLE[key](operands)`: a lookup in them stays a lookup, whatever their values are
-# (lambdas, operator functions, named functions); writing the rows out as an if-chain would hide the idiom from those rules
-ORACLE_TABLES = {"BinaryOperator", "NUMERICAL_BINARY_OPERATORS", "COMPARISON_OPERATORS", "ASSIGNMENT_EXPRESSIONS"}
+# the public connective table of the evaluator: C02.tables judges it AS A TABLE (abstract evaluation of every row) and the C02 fold rules
+# read its call sites as `BinaryOperator[key](accumulator, value)`: a lookup in it stays a lookup, whatever its values are (lambdas,
+# operator functions, named functions); writing the rows out as an if-chain would hide the fold from those rules.  (The numeric tables are
+# NOT listed: C12.branch decides `TABLE.get(op) is None` from the written-out rows.)
+ORACLE_TABLES = {"BinaryOperator"}
 
 
 class _TableDispatch(ast.NodeTransformer):
